@@ -84,6 +84,25 @@ def genModesOp (name : String) (s : Int) (L : Nat) (a : Array (Cx Float)) : Opti
   | "eth" => some (s + 1, out (Gen.Modes_Rminus_loop (α := Float) sin 7 LI 0 (s + 1) LI 0 s zeros))
   | _ => none
 
+/-- the GENERATED loop of an array-level operator (Gen/DiffKern.lean, from spherical/utilities/operators.py) on the executable flat
+    memory: array 7 is the `np.copy(modes)`; `ell_max` is the prelude's inferred value -/
+def genArrayOp (name : String) (a : Array (Cx Float)) (s ellMin : Int) : Option (Array (Cx Float)) :=
+  let nanF := Float.ofBits 0x7FF8000000000BAD
+  let copy : HFMem Float := Id.run do
+    let mut st : HFMem Float := { map := ∅, dflt := nanF }
+    for i in [0:a.size] do
+      st := fwrC (α := Float) st 7 (i : Int) (a.getD i ⟨nanF, nanF⟩)
+    return st
+  let ellMax := inferEllMax a.size ellMin
+  let out (st : HFMem Float) : Array (Cx Float) := (Array.range a.size).map (fun (i : Nat) => frdC (α := Float) st 7 (i : Int))
+  match name with
+  | "eth_GHP" => some (out (Gen.arr_eth_GHP_loop (α := Float) 7 s ellMin ellMax copy))
+  | "ethbar_GHP" => some (out (Gen.arr_ethbar_GHP_loop (α := Float) 7 s ellMin ellMax copy))
+  | "eth_NP" => some (out (Gen.arr_eth_NP_loop (α := Float) 7 s ellMin ellMax copy))
+  | "ethbar_NP" => some (out (Gen.arr_ethbar_NP_loop (α := Float) 7 s ellMin ellMax copy))
+  | "ethbar_inverse_NP" => some (out (Gen.arr_ethbar_inverse_NP_loop (α := Float) 7 s ellMin ellMax copy))
+  | _ => none
+
 def arrayOp (name : String) (a : Array (Cx Float)) (s ellMin : Int) : Option (Array (Cx Float)) :=
   match name with
   | "eth_GHP" => some (ethGHP a s ellMin)
@@ -127,6 +146,12 @@ def step (toks : List String) : Option String :=
     let a := parseCx w
     if a.size ≠ n then none else
     let r ← arrayOp name a s ellMin
+    pure (showCx r)
+  | "genarrayop" :: name :: s :: ellMin :: n :: w => do
+    let s ← s.toInt?; let ellMin ← ellMin.toInt?; let n ← n.toNat?
+    let a := parseCx w
+    if a.size ≠ n then none else
+    let r ← genArrayOp name a s ellMin
     pure (showCx r)
   | "conv" :: name :: k0 :: k1 :: k2 :: v =>
     conv name ⟨bf k0, bf k1, bf k2⟩ v
